@@ -449,6 +449,10 @@ func runFail(c *fw.Ctx, plan failPlan) {
 				for _, v := range o.Violations {
 					c.Violate(v.Clause, v.Op, v.Cause, fmt.Sprintf("after failed write %d (%s, step results %v): %s", j, a.class[j], nonEmpty(o.StepErrs), v.Detail))
 				}
+			case r.pre != nil && strings.Contains(r.err, "exit status 3"):
+				// the fault process gave up waiting for its workload without
+				// finding a proof of a held lock in the stacks
+				c.Inconclusive("fault_process_no_verdict")
 			case r.pre != nil:
 				// the process ended itself after the failed write (log.Crit): the
 				// database is the crash prefix j, checked below
@@ -469,7 +473,7 @@ func runFail(c *fw.Ctx, plan failPlan) {
 	// processes that exited through log.Crit left the crash prefix j behind
 	for _, j := range order {
 		r := results[j]
-		if r == nil || r.pre == nil || (r.out != nil && r.out.Done) || r.to {
+		if r == nil || r.pre == nil || (r.out != nil && r.out.Done) || r.to || !strings.Contains(r.err, "exit status 1") {
 			continue
 		}
 		id := fmt.Sprintf("%s!%d-reopen", spec.Name, j)
